@@ -14,7 +14,8 @@ pub(crate) trait LWEDecryptDefault<BE: Backend>: Sized + VecZnxNormalize<BE> + V
     where
         A: LWEInfos,
     {
-        let lvl_0: usize = LWEPlaintext::bytes_of(infos.size());
+        // 8 bytes per limb: rounded up so that the buffer taken next still finds its aligned space.
+        let lvl_0: usize = LWEPlaintext::bytes_of(infos.size()).next_multiple_of(poulpy_hal::DEFAULTALIGN);
         let lvl_1: usize = self.vec_znx_normalize_tmp_bytes();
 
         lvl_0 + lvl_1
